@@ -371,6 +371,30 @@ def parser_grid_search(log):
     return {'witness': None, 'grid_points': len(cases)}
 
 
+def loop_exit_grid_search(log):
+    """a list / dict / set is iterated by a for loop that is left by exhaustion, break, or one of the return forms
+    (constant, computed, in a def with a declared return type); afterwards the container must be mutable again."""
+    build(log)
+    conts = [('[1, 2, 3]', 'c.append(9)'), ('{1: 2, 3: 4}', 'c[9] = 9'), ('set([1, 2])', 'c.add(9)')]
+    bodies = [('exhaustion', 'def f(c):\n    for x in c:\n        pass\n    return 0'),
+              ('break', 'def f(c):\n    for x in c:\n        break\n    return 0'),
+              ('return const', 'def f(c):\n    for x in c:\n        return 7\n    return 0'),
+              ('return expr', 'def f(c):\n    for x in c:\n        return x + 1\n    return 0'),
+              ('typed return', 'def f(c) -> int:\n    for x in c:\n        return 7\n    return 0'),
+              ('typed return expr', 'def f(c) -> int:\n    for x in c:\n        for y in c:\n            return x + 1\n    return 0'),
+              ('nested return', 'def f(c):\n    for x in c:\n        for y in c:\n            return y\n    return 0')]
+    n = 0
+    for cexpr, mut in conts:
+        for name, body in bodies:
+            src = '%s\nc = %s\nf(c)\n%s\nlen(c)' % (body, cexpr, mut)
+            p = subprocess.run([BIN, 'evalseq', src], capture_output=True, text=True, timeout=120)
+            o = (p.stdout.strip().splitlines() or ['?'])[-1]
+            n += 1
+            if not o.startswith('OK'):
+                return {'witness': {'program': src, 'real_library': o, 'expected': 'the container is mutable again after the loop was left by ' + name}, 'grid_points': n}
+    return {'witness': None, 'grid_points': n}
+
+
 def call_grid_search(log):
     """9 signatures x 16 call shapes (positional, named, *seq, **map): the values the parameters receive, or failure,
     compared with CPython's call rules."""
@@ -544,6 +568,10 @@ def find_witness(prop, v, repo, log):
             r = grid_search_int(op, log)
             r['search'] = 'boundary grid for `%s` on the real library vs Python integers' % op
             return r
+    if prop == 'C12' and ('write_return' in fn or 'C12.bc.' in oid):
+        r = loop_exit_grid_search(log)
+        r['search'] = '3 container kinds x 7 ways of leaving a for loop (exhaustion, break, five return forms), then a mutation, on the real library'
+        return r
     if prop == 'C08' and ('C08.bind' in oid or 'collect_inline_impl' in fn):
         r = call_grid_search(log)
         r['search'] = '10 signatures x 16 call shapes (positional, named, *seq, **map) on the real library vs CPython call rules'
